@@ -57,10 +57,10 @@ PROPS = {
         "assumptions": ["exception-free behaviours"],
     },
     "C04": {
-        "extra": [("mix", 3, 12)], "profile": "rtc", "n_quick": 5, "n_thorough": 40, "nops": 16, "nlists": 4, "cfgs": SIX + ["back+circ", "back11+circ"],
+        "extra": [("mix", 3, 12), ("core", 3, 12, "gen_ops_queue_plain"), ("hist", 2, 8, "gen_ops_queue_plain")], "profile": "rtc", "n_quick": 5, "n_thorough": 40, "nops": 16, "nlists": 4, "cfgs": SIX + ["back+circ", "back11+circ"],
         "ops": lambda g, md, n: (g.gen_ops_queue(md, n) if g.rng.random() < 0.5 else g.gen_ops(md, n)),
         "corpus": ["throw_then_submit"],
-        "monitor": M.mon_C04,
+        "monitor": M.both(M.mon_C04, M.mon_spec),
         "relevant": M.relevant_by(M.proj(M.ALL, keep_res=True, keep_snap=True, keep_ev=True)),
         "rule": "machines whose behaviours submit (process_event / enqueue_event) 0-3 further events at planned behaviour "
                 "positions, plus enqueue / drain / single-step operations from outside; payloads identify occurrences; "
